@@ -604,7 +604,7 @@ func c12CompiledPositions(cfg *mon.Config) *mon.Sub {
 func c12TemplateErrorPositions(cfg *mon.Config) *mon.Sub {
 	return &mon.Sub{
 		Name:  "template-error-positions",
-		Rule:  "seeded well-formed templates (text with line breaks of all styles, variables, comments, nested sections) made malformed at a known place: a stray end tag {{/zzq}}, a tag with a symbol no tag may contain (%, %d, ?, *, =, + ...) or an inverted section spelled {{^if zzq}} inserted between two segments (at top level or inside open sections, with and without anything after it), or one more closing brace on a variable tag; the template must be rejected, and when the message quotes a line and column they must - by the independent line/column model - lie inside the offending tag (from its first opening brace to its last closing brace); non-trivial = the tag is not on the first line",
+		Rule:  "seeded well-formed templates (text with line breaks of all styles, variables, comments, nested sections) made malformed at a known place: a stray end tag {{/zzq}}, a tag with a symbol no tag may contain (%, %d, ?, *, =, + ...) or an inverted section spelled {{^if zzq}} inserted between two segments (at top level or inside open sections, with and without anything after it), or one more closing brace on a variable tag, or one more opening brace on it; the template must be rejected, and when the message quotes a line and column they must - by the independent line/column model - lie inside the offending tag (from its first opening brace to its last closing brace), and a 'Mismatched brackets' message, which names the closing brackets it expected, must quote the place of the closing braces found instead; non-trivial = the tag is not on the first line",
 		Floor: 200,
 		Gen: func(emit func(string)) {
 			r := cfg.Rng("c12-tmplerr")
@@ -650,7 +650,11 @@ func c12TemplateErrorPositions(cfg *mon.Config) *mon.Sub {
 					for k, sg := range segs {
 						if k == at {
 							start = len([]rune(b.String()))
-							b.WriteString(sg.Text + "}")
+							if r.Bool() {
+								b.WriteString(sg.Text + "}")
+							} else { // the other way round: three braces open, two close
+								b.WriteString("{" + sg.Text)
+							}
 							end = len([]rune(b.String()))
 							continue
 						}
@@ -700,12 +704,28 @@ func c12TemplateErrorPositions(cfg *mon.Config) *mon.Sub {
 				c.Failf("position quoted when a template is rejected does not point at the offending tag", "template=%q offending tag %q (lines %d..%d, first column %d), message: %v", src, string([]rune(src)[start:end]), lines[start+1], lines[end], cols[start+1], err)
 				return
 			}
+			if strings.Contains(err.Error(), "Mismatched brackets") {
+				// the message names the closing brackets it expected: the offending token is the run of closing braces found in their place
+				tag := []rune(src)[start:end]
+				cl := len(tag)
+				for cl > 0 && tag[cl-1] == '}' {
+					cl--
+				}
+				if o := start + cl; cl < len(tag) && (lines[o+1] != gl || cols[o+1] != gc) {
+					c.Failf("position quoted for mismatched brackets is not that of the closing brackets found", "template=%q offending tag %q: closing braces at line %d column %d, message: %v", src, string(tag), lines[o+1], cols[o+1], err)
+					return
+				}
+				c.Count("mismatched-brackets positions checked against the closing braces")
+			}
 			c.Count("positions-checked")
 			if lines[start+1] > 1 {
 				c.NonTrivial()
 			}
 		},
 		Final: func(r *mon.SubReport) string {
+			if r.Counters["mismatched-brackets positions checked against the closing braces"] == 0 {
+				return "no mismatched-brackets error was observed"
+			}
 			if r.Counters["positions-checked"] < r.Evaluations/3 {
 				return fmt.Sprintf("only %d of %d malformed templates produced a positioned error", r.Counters["positions-checked"], r.Evaluations)
 			}
